@@ -168,12 +168,15 @@ class P:
                 order.append((e, desc))
                 if not self.accept(","):
                     break
+        offset = None
         if self.accept("LIMIT"):
             limit = int(self.eat())
+            if self.accept("OFFSET"):
+                offset = self.expr()
         self.accept(";")
         if self.i != len(self.t):
             raise Unsupported(f"SQL: trailing tokens {self.t[self.i:]}")
-        return dict(kind="select", items=items, table=table, where=where, group=group, order=order, limit=limit)
+        return dict(kind="select", items=items, table=table, where=where, group=group, order=order, limit=limit, offset=offset)
 
     def insert(self):
         self.eat("INSERT")
@@ -249,7 +252,8 @@ def parse_sql(sql):
 # symbolic relation
 # ------------------------------------------------------------------------------------------------------------
 class Row:
-    def __init__(self, present, address, clientid, start, expiry):
+    def __init__(self, present, address, clientid, start, expiry, tie=None):
+        self.tie = tie            # position of the slot in SQLite's (unspecified but fixed) order among rows with equal sort keys
         self.present = present    # z3 Bool
         self.address = address    # BV32  (the TEXT column always holds the canonical rendering of an address)
         self.clientid = clientid  # BV32 identity of the BLOB (equality is all SQL does with it)
@@ -265,7 +269,7 @@ def fresh_table(n, tag="r"):
     rows = []
     for i in range(n):
         rows.append(Row(z3.Bool(f"{tag}{i}_present"), z3.BitVec(f"{tag}{i}_addr", 32), z3.BitVec(f"{tag}{i}_client", 32),
-                        z3.BitVec(f"{tag}{i}_start", 64), z3.BitVec(f"{tag}{i}_expiry", 64)))
+                        z3.BitVec(f"{tag}{i}_start", 64), z3.BitVec(f"{tag}{i}_expiry", 64), tie=z3.BitVec(f"{tag}{i}_tie", 8)))
     return rows
 
 
@@ -337,6 +341,8 @@ def table_invariant(rows):
         for j in range(i):
             for key in UNIQUE_KEYS:
                 cs.append(z3.Implies(z3.And(r.present, rows[j].present), z3.Not(same_key(r, rows[j], key))))
+            if r.tie is not None and rows[j].tie is not None:
+                cs.append(r.tie != rows[j].tie)
     return cs
 
 
@@ -517,6 +523,31 @@ def select_plan(ast, rows, params):
             better = (vi > vj) if desc else (vi < vj)
             res = z3.Or(better, z3.And(vi == vj, res))
         return res
+    if ast.get("offset") is not None:
+        # LIMIT 1 OFFSET k: the row that exactly k matching rows precede.  Rows with equal sort keys come in SQLite's own order,
+        # unspecified but the same for every statement over the same data: the slots' `tie` positions (distinct, arbitrary).
+        if any(r.tie is None for r in rows):
+            raise Unsupported("SQL: OFFSET over rows without a tie order")
+        k = to_int(eval_expr(ast["offset"], rows[0] if rows else None, params, aliases))
+
+        def before(j, i):
+            """row j comes strictly before row i"""
+            strictly = z3.Not(no_worse(i, j)) if ast["order"] else z3.BoolVal(False)
+            equal = z3.And(no_worse(i, j), no_worse(j, i)) if ast["order"] else z3.BoolVal(True)
+            return z3.Or(strictly, z3.And(equal, z3.ULT(rows[j].tie, rows[i].tie)))
+        one, zero = z3.BitVecVal(1, 64), z3.BitVecVal(0, 64)
+        total = zero
+        for c in conds:
+            total = total + z3.If(c, one, zero)
+        outcomes = [(z3.ULE(total, k), None)]
+        for i, r in enumerate(rows):
+            ahead = zero
+            for j in range(len(rows)):
+                if j != i:
+                    ahead = ahead + z3.If(z3.And(conds[j], before(j, i)), one, zero)
+            cols = [eval_expr(e, r, params, aliases) for e, _ in items]
+            outcomes.append((z3.And(conds[i], ahead == k), cols))
+        return outcomes
     outcomes = [(z3.Not(z3.Or(conds)) if conds else z3.BoolVal(True), None)]
     for i, r in enumerate(rows):
         c = conds[i]
@@ -558,7 +589,7 @@ def apply_insert(ast, rows, params, spare_index):
             m = z3.Or(m, z3.Not(anym))
         gone = z3.And(conflict[i], z3.Not(m))
         out.append(Row(z3.If(m, new.present, z3.And(r.present, z3.Not(gone))), z3.If(m, new.address, r.address), z3.If(m, new.clientid, r.clientid),
-                       z3.If(m, new.start, r.start), z3.If(m, new.expiry, r.expiry)))
+                       z3.If(m, new.start, r.start), z3.If(m, new.expiry, r.expiry), tie=r.tie))
     return out
 
 
@@ -601,5 +632,5 @@ def apply_upsert(ast, rows, params, spare_index):
                        z3.If(ins, new.address, z3.If(m, upd["address"], r.address)),
                        z3.If(ins, new.clientid, z3.If(m, upd["clientid"], r.clientid)),
                        z3.If(ins, new.start, z3.If(m, upd["start"], r.start)),
-                       z3.If(ins, new.expiry, z3.If(m, upd["expiry"], r.expiry))))
+                       z3.If(ins, new.expiry, z3.If(m, upd["expiry"], r.expiry)), tie=r.tie))
     return out
